@@ -390,6 +390,19 @@ def rule_slots(ctx, R):
                 other += 1
         if len(consts) == 1 and incs == 1 and other == 0 and consts[0] >= 2:
             m0 = (consts[0], b.lname(l))
+    # "no slot yet" is the value 0 of a map entry: entries are created with 0 and tested against 0
+    ins = [roles.of_operand(t["args"][1], bi) for bi, t in b.calls() if callee_name(t["f"], fb).endswith("Entry::or_insert")]
+    evs = Events(b, fb, roles=roles)
+    tests = set()
+    for gb, blk in enumerate(b.blocks):
+        tt = blk["term"]
+        if tt["k"] == "switch" and not blk["cleanup"]:
+            for s_ in cfg.succ[gb]:
+                lab = evs.generic_edge(gb, tt, s_) or ""
+                if "Entry::or_insert" in lab and lab.startswith("EQ["):
+                    body_ = lab[3:lab.rindex("]")]
+                    tests.add("K0" if body_.startswith("K0,") or body_.endswith(",K0") else body_[-12:])
+    R.check(bool(ins) and all(v == "K0" for v in ins) and tests == {"K0"}, "optimize:slots:sentinel", "a stack without a slot is marked by the entry value 0 (entries are created with 0 and compared with 0): created with %s, compared with %s" % (ins, sorted(tests)), b.span)
     # a private slot is the value of the counter *before* it is advanced (the advanced value is the shared slot)
     stores = []
     for bi, blk in enumerate(b.blocks):
@@ -519,7 +532,8 @@ def rule_reemit(ctx, R):
         evg = Events(b, fb, roles=roles)
         labs = [l for l in dominating_edge_labels(cfg, b, evg, bi) if "Vec::is_empty(State::get_stack(" in l]
         other = {"1": ",K2)", "2": ",K1)"}.get(k, "??")
-        R.check(not any(other in l for l in labs) and all(l.endswith("=0") for l in labs), "run:reemit:guard:%s" % k, "the re-emission of stack %s is entered when that stack (not the other one) is non-empty: %s" % (k, [l[-40:] for l in labs]), t["span"]["at"])
+        same = ",K%s)" % k
+        R.check(all(same in l for l in labs) and all(l.endswith("=0") for l in labs), "run:reemit:guard:%s" % k, "the re-emission of stack %s is entered when that stack (not the other one) is non-empty: %s" % (k, [l[-40:] for l in labs]), t["span"]["at"])
         n_ok += 1
     R.floor("reemit_writes", n_ok, 2, "re-emission writes for stacks 1 and 2")
     # cleared afterwards
